@@ -1,6 +1,6 @@
 (** C18, decoders: a length field above 2^26 and a container entered at nesting level 64 end every
     decoder with an error at that point - whatever bytes follow, whatever the element type. *)
-From RB Require Import Base.Prelude Sig.Types Sig.Parser Sig.ParserProofs Sig.Validator Sig.ValidatorProofs
+From RB Require Import Base.Prelude Sig.Types Sig.Parser Sig.ParserProofs Sig.Validator Sig.ValidatorProofs Sig.Iter
   Wire.Bytes Wire.Align Wire.Text Wire.Value Wire.SpecEnc Wire.Marshal Wire.MarshalProofs Wire.Decode Wire.Unmarshal
   Wire.DecodeSoundLemmas Wire.DecodeLemmas Wire.DecodeTotal Wire.Limits.
 
@@ -483,4 +483,105 @@ Theorem check_marshalled_array_len_spec n :
 Proof.
   unfold check_marshalled_array_len. destruct (N.ltb_spec MAX_ARRAY n) as [H|H]; [exact H|].
   split; [exact H|now apply small_is_u32].
+Qed.
+
+(** * The statements of Properties/C18.v that combine the lemmas above *)
+Theorem decode_length_all : forall be (pre : list N) off, over_limit be pre off -> forall suffix vf,
+  (forall d e, validate (S vf) be d off (pre ++ suffix) (TArray e) = Err)
+  /\ (forall d k v, validate (S vf) be d off (pre ++ suffix) (TDict k v) = Err)
+  /\ (forall nf d e, unmarshal_p (S vf) be (TArray e) {| ubuf := pre ++ suffix; uoff := off; unfds := nf; udepth := d |} = Err)
+  /\ (forall nf d k v, unmarshal_p (S vf) be (TDict k v) {| ubuf := pre ++ suffix; uoff := off; unfds := nf; udepth := d |} = Err)
+  /\ (forall nf d x, unmarshal_t (S vf) be (EArray x) {| ubuf := pre ++ suffix; uoff := off; unfds := nf; udepth := d |} = Err)
+  /\ (forall nf d k x, unmarshal_t (S vf) be (EDict k x) {| ubuf := pre ++ suffix; uoff := off; unfds := nf; udepth := d |} = Err).
+Proof.
+  intros be pre off Ho suffix vf. pose proof (over_limit_prefix be pre suffix off Ho) as H.
+  repeat split; intros.
+  - now apply validate_array_over.
+  - now apply validate_dict_over.
+  - now apply unmarshal_p_array_over.
+  - now apply unmarshal_p_dict_over.
+  - now apply unmarshal_t_array_over.
+  - now apply unmarshal_t_dict_over.
+Qed.
+
+Theorem decode_depth_all : forall be vf,
+  (forall t d off buf, is_container t = true -> MAX_DEPTH <= d -> validate (S vf) be d off buf t = Err)
+  /\ (forall t c, is_container t = true -> MAX_DEPTH <= udepth c -> unmarshal_p (S vf) be t c = Err)
+  /\ (forall x c, uoff c <= len (ubuf c) -> MAX_DEPTH <= udepth c -> unmarshal_t (S vf) be (EVar x) c = Err).
+Proof.
+  intros be vf. repeat split; intros.
+  - now apply validate_depth_over.
+  - now apply unmarshal_p_depth_over.
+  - now apply unmarshal_t_var_depth_over.
+Qed.
+
+Theorem decode_depth_value : forall be vf t c v c',
+  unmarshal_p vf be t c = Ok (v, c') -> udepth c' = udepth c /\ (vdepth v = 0 \/ udepth c + vdepth v <= MAX_DEPTH).
+Proof.
+  intros be vf t c v c' H. destruct (unmarshal_p_depth be vf t c v c' H) as [H1 H2]. split; [exact H1|].
+  destruct (N.eq_dec (vdepth v) 0) as [|Hnz]; [now left|]. right. unfold MAX_DEPTH in *. lia.
+Qed.
+
+Theorem typed_counts_no_nesting : forall be n c,
+  snd (marshal_t be (nest_struct n (VBase BByte 7)) c) = true /\ vdepth (nest_struct n (VBase BByte 7)) = N.of_nat n.
+Proof. intros be n c. split; [apply marshal_t_counts_no_nesting|rewrite vdepth_nest; cbn [vdepth]; lia]. Qed.
+
+Theorem send_message_checks : forall hdr body fields,
+  match marshal_message_len hdr body with
+  | Ok n => hdr + body <= MAX_MESSAGE /\ n = body
+  | Err => MAX_MESSAGE < hdr + body
+  | _ => False
+  end
+  /\ match marshal_header_fields_len fields with
+     | Ok m => fields <= MAX_ARRAY /\ m = fields
+     | Err => MAX_ARRAY < fields
+     | _ => False
+     end.
+Proof. intros. split; [apply marshal_message_len_spec|apply check_marshalled_array_len_spec]. Qed.
+
+(** * C04: progress of the decoders, totality of the signature functions, allocation of the slice fast path *)
+Lemma validate_marshalled_vgood be off buf t : wf t = true -> off <= len buf -> vgood off buf (validate_marshalled be off buf t).
+Proof. intros Hw Ho. unfold validate_marshalled. apply validate_good; [exact Hw|exact Ho|lia|cbn; lia]. Qed.
+
+Theorem decoders_progress : forall be,
+  (forall t off buf n, wf t = true -> off <= len buf -> validate_marshalled be off buf t = Ok n -> 1 <= n /\ off + n <= len buf)
+  /\ (forall t c v c', wf t = true -> uoff c <= len (ubuf c) -> unmarshal_p 66 be t c = Ok (v, c') ->
+        uoff c < uoff c' <= len (ubuf c))
+  /\ (forall e c v c', ewf e = true -> uoff c <= len (ubuf c) -> (evars e <= 65)%nat -> unmarshal_t 66 be e c = Ok (v, c') ->
+        uoff c < uoff c' <= len (ubuf c)).
+Proof.
+  intros be. split; [|split].
+  - intros t off buf n Hw Ho H. pose proof (validate_marshalled_vgood be off buf t Hw Ho) as G. rewrite H in G. exact G.
+  - intros t c v c' Hw Ho H.
+    assert (G : good c (unmarshal_p 66 be t c)) by (apply unmarshal_p_good; [exact Hw|exact Ho|lia|cbn; lia]).
+    rewrite H in G. destruct G as [_ G]. exact G.
+  - intros e c v c' Hw Ho Hv H.
+    assert (G : good c (unmarshal_t 66 be e c)) by (apply unmarshal_t_good; [exact Hw|exact Ho|lia]).
+    rewrite H in G. destruct G as [_ G]. exact G.
+Qed.
+
+Theorem signatures_total : forall l,
+  ok_or_err (parse_description l) /\ ok_or_err (validate_signature l)
+  /\ (ValidSig l -> ok_or_err (iter_all (S (length l)) l)).
+Proof.
+  intros l. split; [apply parse_description_total|]. split; [apply validate_signature_total|].
+  intros (ts & _ & _ & _ & ->). rewrite iter_all_types; [exact I|]. pose proof (length_flat_ge ts). lia.
+Qed.
+
+Theorem slice_alloc_bound : forall be vf x c v c', valid_slice be (erase x) = true -> uoff c <= len (ubuf c) ->
+  unmarshal_t (S vf) be (EArray x) c = Ok (v, c') ->
+  exists n, n <= MAX_ARRAY /\ uoff c + 4 + n <= uoff c' /\ uoff c' <= len (ubuf c).
+Proof.
+  intros be vf x c v c' Hs Ho H. rewrite unmarshal_t_S_array, Hs in H.
+  pose proof (u_read_fixed_moved be 4 c Ho) as G1.
+  destruct (u_read_fixed be 4 c) as [r| | | |]; cbn [bind] in H; try discriminate. destruct G1 as [[E1 H1] H1'].
+  unfold check_array_len in H. destruct (N.ltb_spec MAX_ARRAY (fst r)) as [|Hn]; cbn [bind] in H; [discriminate|].
+  assert (Hr : uoff (snd r) <= len (ubuf (snd r))) by (rewrite E1; cbn [set_off ubuf uoff]; lia).
+  pose proof (u_align_moved (ealign x) (snd r) Hr) as G2.
+  destruct (u_align (ealign x) (snd r)) as [c1| | | |]; cbn [bind] in H; try discriminate. destruct G2 as [E2 H2].
+  destruct (negb _); [discriminate|]. unfold remainder_len in H.
+  destruct (N.ltb_spec (len (ubuf c1) - uoff c1) (fst r)) as [|Hrem]; [discriminate|].
+  destruct (erase x); try discriminate. injection H as _ <-. exists (fst r). cbn [set_off uoff].
+  change (N.of_nat 4) with 4 in H1'. rewrite E2, E1 in Hrem. rewrite E1 in H2. cbn [set_off ubuf uoff] in *.
+  split; [exact Hn|]. lia.
 Qed.
